@@ -5,6 +5,7 @@
         -> `init ...` segment then one segment per op, separated by " | "
 -/
 import WntrModel.Model.Isolation
+import WntrModel.Model.IsolationStatic
 open Wntr.Isolation
 
 def nats (s : String) : List Nat :=
@@ -60,7 +61,8 @@ def handleNet (parts : List String) : String :=
       let net : Net := { n := n, links := ls.map (·.1), valve := ls.map (·.2.1),
                          initOrder := nats order, sources := nats sources }
       let (out, s0) := initGraph net (ls.map (·.2.2.1)) (ls.map (·.2.2.2))
-      let ok := structOkB net.n net.links s0.g
+      let hasLoop := net.links.any fun e => e.1 == e.2
+      let ok := structOkB net.n net.links s0.g && (hasLoop || (decide s0.Static && net.initOrder.isPerm (List.range net.links.length)))
       let ndxs := ",".intercalate (s0.ndx.map fun p => s!"{p.1}-{p.2}")
       let head := s!"init {showOutcome out} ok={if ok then 1 else 0} P={commaN s0.g.indptr} X={commaN s0.g.indices} " ++
         s!"N={commaN s0.g.nconn} D={commaI s0.g.data} M={showMulti s0.multi} NDX={ndxs}"
